@@ -29,7 +29,10 @@ class Session(object):
                                            "trie_changed": before[0] != after[0], "links_changed": before[1] != after[1],
                                            "writes_issued": after[2] - before[2]})
         else:
+            t0 = len(self.impl.trace)
             a = self.impl.exec(op, args)
+            if getattr(self, "traced", False) and op in C.WRITE_OPS and op not in (1, 13):
+                meta = dict(meta, trace=[[1 if tg == "t" else 0, blk, data] for tg, blk, data in self.impl.trace[t0:]])
         self.cmds.append((op, args))
         self.meta.append(meta)
         self.ians.append(a)
@@ -156,10 +159,17 @@ class Session(object):
         if bytes_facet:
             self.do(43, [])
             self.do(44, [])
-        mans = C.run_driver(self.cmds)
+        mans = C.run_driver([((op + 100) if "trace" in meta else op, args) for (op, args), meta in zip(self.cmds, self.meta)])
         self.mans = mans
+        self.mtraces = {}
         mism = []
         for i, ((op, args), got, ms, meta) in enumerate(zip(self.cmds, self.ians, mans, self.meta)):
+            if "trace" in meta:
+                self.mtraces[i] = ms[1]
+                ms = ms[0]
+                mans[i] = ms
+                if not C.eq(meta["trace"], self.mtraces[i]):
+                    mism.append(C.Mismatch(i, op, "trace", meta["trace"], self.mtraces[i], "write trace differs"))
             model, spec = ms[0], ms[1]
             if not C.eq(C.canon(op, got), C.canon(op, model)):
                 mism.append(C.Mismatch(i, op, "model", got, model))
